@@ -43,6 +43,12 @@ type c08Case struct {
 	Kinds  []string   `json:"kinds"` // media kind per section
 	Init   []string   `json:"init"`  // local transceiver per section before the first offer
 	Rounds []c08Round `json:"rounds"`
+	// Pranswer: in every round the first answer is applied as a provisional answer and a second, final answer
+	// is created (and judged) in have-local-pranswer
+	Pranswer bool `json:"pranswer,omitempty"`
+	// Sem: "" Unified Plan; "planb" / "fallback": the answerer is configured with SDPSemanticsPlanB /
+	// UnifiedPlanWithFallback and the offers are Plan-B shaped (mids "audio" / "video")
+	Sem string `json:"sem,omitempty"`
 }
 
 func c08RoundClass(r int) string {
@@ -91,6 +97,32 @@ func (l *c08Local) byMid(mid string) *RTPTransceiver {
 	}
 
 	return nil
+}
+
+func (cs c08Case) semTag() string {
+	if cs.Sem == "" {
+		return ""
+	}
+
+	return "|sem=" + cs.Sem
+}
+
+// byKindOrMid: under Plan-B the transceivers carry no per-section mid; the section named after a kind is
+// described by the first transceiver of that kind.
+func (l *c08Local) byKindOrMid(cs c08Case, mids []string) func(string) *RTPTransceiver {
+	if cs.Sem == "" {
+		return l.byMid
+	}
+
+	return func(mid string) *RTPTransceiver {
+		for _, tr := range l.pc.GetTransceivers() {
+			if tr.Kind().String() == mid {
+				return tr
+			}
+		}
+
+		return nil
+	}
 }
 
 const (
@@ -177,7 +209,11 @@ func c08Judge(c *vkit.Check, part string, round int, offerText, answerText strin
 		c.State(fmt.Sprintf("%s|local=%s|offered=%s", part, after, offered))
 		c.Distinct(part + "|" + class)
 		if !vAnsLegalAnswerDir(o.Direction, a.Direction) {
-			c.Violation("dir|"+class,
+			semKey := ""
+			if i := strings.Index(part, "|sem="); i >= 0 {
+				semKey = part[i:]
+			}
+			c.Violation("dir|"+class+semKey,
 				fmt.Sprintf("%s, round %d: section mid %q offered a=%s, local transceiver direction before the offer was applied: %s, answered a=%s — not permitted by RFC 3264 section 6.1",
 					part, round+1, o.Mid, offered, local, answered), rep)
 		}
@@ -206,7 +242,14 @@ func c08Codec(kind string) []vScanOfferCodec {
 // shorter alphabet's history and is not counted).
 func c08RunSynthetic(t *testing.T, c *vkit.Check, cs c08Case) (counted bool) {
 	api := vNewAPI(t, vAPIOpts{virtualNet: true, setting: vAnsOfflineNet})
-	pc := vNewPC(t, api, nil)
+	var cfg *Configuration
+	switch cs.Sem {
+	case "planb":
+		cfg = &Configuration{SDPSemantics: SDPSemanticsPlanB}
+	case "fallback":
+		cfg = &Configuration{SDPSemantics: SDPSemanticsUnifiedPlanWithFallback}
+	}
+	pc := vNewPC(t, api, cfg)
 	defer func() { _ = pc.Close() }()
 	counted = true
 	c.Guard("case", map[string]any{"case": cs}, func() {
@@ -214,6 +257,9 @@ func c08RunSynthetic(t *testing.T, c *vkit.Check, cs c08Case) (counted bool) {
 		mids := make([]string, len(cs.Kinds))
 		for i, k := range cs.Kinds {
 			mids[i] = fmt.Sprint(len(cs.Kinds) - 1 - i) // not the position
+			if cs.Sem != "" {
+				mids[i] = k // Plan-B: one section per kind, named after it
+			}
 			l.addTransceiver(vAnsKind(k), cs.Init[i])
 		}
 		for r, rd := range cs.Rounds {
@@ -251,8 +297,27 @@ func c08RunSynthetic(t *testing.T, c *vkit.Check, cs c08Case) (counted bool) {
 				return
 			}
 			c.Transition()
-			c08Judge(c, "synthetic", r, offer, answer.SDP, pre, l.byMid,
+			c08Judge(c, "synthetic"+cs.semTag(), r, offer, answer.SDP, pre, l.byKindOrMid(cs, mids),
 				map[string]any{"case": cs, "round": r + 1, "offer": strings.Split(offer, "\r\n"), "answer": strings.Split(answer.SDP, "\r\n")})
+			if cs.Pranswer {
+				pr := answer
+				pr.Type = SDPTypePranswer
+				if err := pc.SetLocalDescription(pr); err != nil {
+					c.Outcome("set-local-pranswer-error")
+
+					return
+				}
+				final, err := pc.CreateAnswer(nil)
+				if err != nil {
+					c.Outcome("create-final-answer-error")
+
+					return
+				}
+				c.Transition()
+				c08Judge(c, "synthetic-after-pranswer"+cs.semTag(), r, offer, final.SDP, pre, l.byKindOrMid(cs, mids),
+					map[string]any{"case": cs, "round": r + 1, "offer": strings.Split(offer, "\r\n"), "answer": strings.Split(final.SDP, "\r\n")})
+				answer = final
+			}
 			if err := pc.SetLocalDescription(answer); err != nil {
 				c.Outcome("set-local-error")
 
@@ -552,6 +617,31 @@ func TestVerifC08(t *testing.T) {
 				c.Eval()
 				c.Validated()
 				atomic.AddInt64(&run, 1)
+			}
+			// the histories without two sections of one kind again on Plan-B shaped offers, for an answerer
+			// configured with Plan B and with Unified Plan with fallback
+			if len(plans[i].Kinds) == 1 || plans[i].Kinds[0] != plans[i].Kinds[len(plans[i].Kinds)-1] {
+				for _, sem := range []string{"planb", "fallback"} {
+					h := hist(j)
+					h.Sem = sem
+					planBOps := true
+					for _, r := range h.Rounds {
+						planBOps = planBOps && r.Op.Kind != "setsender"
+					}
+					if planBOps && c08RunSynthetic(t, c, h) {
+						c.Eval()
+						c.Validated()
+					}
+				}
+			}
+			// the single-section histories again with a provisional answer before the final one in every round
+			if len(plans[i].Kinds) == 1 {
+				h := hist(j)
+				h.Pranswer = true
+				if c08RunSynthetic(t, c, h) {
+					c.Eval()
+					c.Validated()
+				}
 			}
 		})
 		plans[i].Count = n
